@@ -179,7 +179,7 @@ def sv_tables(ctx, mpo_dec: dict | None = None) -> None:
            "each amplitude is stored at the index of its string" if oka else "amplitudes are not stored at data[index(string)]")
     # index_to_bitstring is the inverse convention (checked under C15 too)
     u = prog.func("emu_sv.utils.index_to_bitstring")
-    fmt = any(isinstance(n, ast.Call) and util.text(n.func) == "format" and util.text(n.args[0]) == "index" for n in ast.walk(u.node))
+    fmt = util.formats_index_as_padded_binary(u)
     ctx.ob("TABLES-sv", "index_to_bitstring", u.loc(), fmt, "index → zero-padded binary, MSB first" if fmt else
            "index_to_bitstring changed")
 
@@ -207,3 +207,89 @@ def _term_literal(t):
     if t[0] in ("list", "tuple"):
         return [_term_literal(x) for x in t[1]]
     raise ValueError("not a literal")
+
+
+OPREPR = [("emu_sv.dense_operator.DenseOperator._from_operator_repr", "DenseOperator"),
+          ("emu_sv.sparse_operator.SparseOperator._from_operator_repr", "SparseOperator"),
+          ("emu_mps.mpo.MPO._from_operator_repr", "MPO")]
+
+
+def operator_terms(ctx, which: tuple = ("DenseOperator", "SparseOperator", "MPO"), rule: str = "TABLES-terms") -> None:
+    """Each term of an operator representation is a tensor product of identities with the listed single-site
+    operators at their targets, times the term's coefficient: the per-site buffer is re-initialised to identities
+    inside the loop over terms, a target's slot receives the operator of that entry, and the term's product is
+    accumulated with the term's coefficient."""
+    prog = ctx.prog
+    for q, owner in OPREPR:
+        if owner not in which:
+            continue
+        f = prog.func(q)
+        a = f.node.args
+        params = [x.arg for x in a.posonlyargs + a.args + a.kwonlyargs]
+        ctx.require("operations" in params, f"{rule}: {owner}._from_operator_repr has no parameter `operations`")
+        loops = [n for n in util.walk_own(f.node) if isinstance(n, ast.For) and isinstance(n.iter, ast.Name) and n.iter.id == "operations"]
+        ctx.require(len(loops) == 1, f"{rule}: {len(loops)} loops over `operations` in {owner}._from_operator_repr")
+        T = loops[0]
+        # slot stores inside the terms loop: X[t] = v with X a local name, t the target of an enclosing inner loop
+        stores = []
+        for inner in ast.walk(T):
+            if isinstance(inner, ast.For) and inner is not T:
+                for st in ast.walk(inner):
+                    if isinstance(st, ast.Assign) and len(st.targets) == 1 and isinstance(st.targets[0], ast.Subscript) \
+                            and isinstance(st.targets[0].value, ast.Name) and isinstance(inner.target, ast.Name) \
+                            and isinstance(st.targets[0].slice, ast.Name) and st.targets[0].slice.id == inner.target.id \
+                            and st in inner.body:
+                        stores.append((st, inner))
+        ctx.require(len(stores) == 1, f"{rule}: {len(stores)} per-target slot stores in {owner}._from_operator_repr (1 confirmed by hand)")
+        st, tl = stores[0]
+        buf = st.targets[0].value.id
+        # (1) fresh per term
+        allocs = [s for s in T.body if isinstance(s, (ast.Assign, ast.AnnAssign)) and
+                  any(isinstance(t, ast.Name) and t.id == buf for t in (s.targets if isinstance(s, ast.Assign) else [s.target]))]
+        others = [s for s in ast.walk(f.node) if isinstance(s, (ast.Assign, ast.AnnAssign)) and s not in allocs and
+                  any(isinstance(t, ast.Name) and t.id == buf for t in (s.targets if isinstance(s, ast.Assign) else [s.target]))]
+        pos_ok = bool(allocs) and all(T.body.index(s) < _index_containing(T.body, st) for s in allocs)
+        ident = bool(allocs) and all(any(isinstance(n, ast.Call) and (dotted(n.func) or "").endswith("torch.eye") for n in ast.walk(s.value))
+                                      for s in allocs)
+        nq = bool(allocs) and all("n_qudits" in util.text(s.value) for s in allocs)
+        fresh = pos_ok and ident and nq and len(allocs) == 1
+        ctx.ob(rule, f"{owner}|buffer fresh per term", f.loc(allocs[0]) if allocs else f.loc(T), fresh,
+               "the per-site factor list is reset to n_qudits identities at the start of every term" if fresh else
+               (f"{owner}._from_operator_repr: the per-site factor list is "
+                + ("initialised outside the loop over terms" if not allocs and others else "not reset to identities in every term")
+                + ": operators placed by one term stay in place for the following terms (X0 + Z1 is built as X0 + X0·Z1)"))
+        # (2) the stored value comes from the entry of the loop over the term's (operator, targets) pairs
+        pair_loops = [n for n in T.body if isinstance(n, ast.For) and tl in ast.walk(n)]
+        okv = False
+        if pair_loops and isinstance(st.value, ast.Name):
+            P = pair_loops[0]
+            pair_names = {n.id for n in ast.walk(P.target) if isinstance(n, ast.Name)}
+            defs = [s for s in P.body if isinstance(s, ast.Assign) and any(isinstance(t, ast.Name) and t.id == st.value.id for t in s.targets)]
+            okv = len(defs) == 1 and bool({n.id for n in ast.walk(util.inline_locals(f, defs[0].value)) if isinstance(n, ast.Name)} & pair_names) and \
+                bool({n.id for n in ast.walk(util.inline_locals(f, tl.iter)) if isinstance(n, ast.Name)} & pair_names) and P is not tl
+        ctx.ob(rule, f"{owner}|slot = entry operator at entry targets", f.loc(st), okv,
+               "for every (operator, targets) entry of a term, each target's slot receives that entry's operator" if okv else
+               f"{owner}._from_operator_repr: the stored factor or the target list no longer come from the same entry of the term")
+        # (3) the term's product is accumulated with the term's coefficient, after the entries loop
+        coeff = None
+        if isinstance(T.target, ast.Tuple) and T.target.elts and isinstance(T.target.elts[0], ast.Name):
+            coeff = T.target.elts[0].id
+        after = T.body[_index_containing(T.body, st) + 1:]
+        acc = [s for s in after if any(isinstance(n, ast.Name) and n.id == buf for n in ast.walk(s))]
+        okc = False
+        if coeff and len(acc) == 1:
+            s = acc[0]
+            mults = [n for n in ast.walk(s) if isinstance(n, ast.BinOp) and isinstance(n.op, ast.Mult)]
+            okc = any((isinstance(m.left, ast.Name) and m.left.id == coeff and any(isinstance(n, ast.Name) and n.id == buf for n in ast.walk(m.right)))
+                      or (isinstance(m.right, ast.Name) and m.right.id == coeff and any(isinstance(n, ast.Name) and n.id == buf for n in ast.walk(m.left)))
+                      for m in mults)
+        ctx.ob(rule, f"{owner}|coeff × product accumulated once per term", f.loc(acc[0]) if acc else f.loc(T), okc,
+               "after all entries of a term are placed, coeff · (product of the site factors) is accumulated once" if okc else
+               f"{owner}._from_operator_repr: the term is not accumulated as coeff · product(site factors) once per term")
+
+
+def _index_containing(body, node) -> int:
+    for i, s in enumerate(body):
+        if node is s or any(n is node for n in ast.walk(s)):
+            return i
+    return len(body)
